@@ -55,10 +55,10 @@ CHECKS = {
   "All Reserve/Release histories up to depth 3 (+state-deduplicated BFS to 4; thorough 4/+6) over 3 network sets x 2 transports x {any,A,B} x 2 ports + ephemeral requests, with the complete availability table compared after every step; PickEphemeralPort for every one of the 49536 start offsets (rand shim) with nothing free (probed set must be exactly [16000,65535]), one free port at 3-8 positions, failing tester; 9 racing programs over all schedules, linearizability against the reference.",
   "Release only of held reservations (API contract); math/rand replaced by a shim returning the enumerated offset.",
   "DESIGN.md §5 C10"),
- "C14": ("enum",
-  "exhaustive enumeration: all 2^32 second operands from each base point against the serial-number definition on 64-bit distances",
-  "For each base in {0, 2^31, 2^32-1} (thorough: 11 bases) and every one of the 2^32 second operands: LessThan/LessThanEq both ways, Add/Size/UpdateForward laws, InRange/InWindow for 6-8 sizes (value moving and range moving), Overlap for 9-25 window-size pairs; compared with the definition computed in 64-bit arithmetic.",
-  "Overlap domain: non-empty windows <= 2^30. The TCP half of the statement (wrap-adjacent initial sequence numbers) is exercised by the TCP checks' scenario sets.",
+ "C14": ("enum+envx",
+  "exhaustive enumeration: all 2^32 second operands from each base point against the serial-number definition on 64-bit distances; stateless model checking (deviation-bounded DFS against the raw peer) of the TCP users of the arithmetic with wrap-adjacent initial sequence numbers",
+  "For each base in {0, 2^31, 2^32-1} (thorough: 11 bases) and every one of the 2^32 second operands: LessThan/LessThanEq both ways, Add/Size/UpdateForward laws, InRange/InWindow for 6-8 sizes (value moving and range moving), Overlap for 9-25 window-size pairs; compared with the definition computed in 64-bit arithmetic. TCP half: the raw-peer stream and window oracles of C01/C04 (bytes read = bytes written in both directions, every byte on the wire at position p is written byte p, window and MSS respected) re-run with the stack's and the peer's initial sequence numbers placed 1, 5, 21, 30, 70 (thorough: 10 offsets) below 2^31 and below 2^32, so that the wrap falls in the handshake, inside a segment, between segments and beyond the data, with every single deviation (thorough: pairs, and SACK/timestamp configurations) among lost / duplicated / reordered / overlapping / re-segmented peer data, mid-segment ACKs, window changes and withheld ACKs.",
+  "Overlap domain: non-empty windows <= 2^30. The passive side's ISS is a SYN cookie and cannot be pinned: the stack is the active opener in the TCP half.",
   "DESIGN.md §5 C14"),
  "C15": ("enum",
   "exhaustive enumeration of finite input domains of the real codecs against an independent RFC bit-layout reference and RFC 1071 sum",
@@ -67,7 +67,7 @@ CHECKS = {
   "DESIGN.md §5 C15"),
  "C16": ("seqx",
   "explicit-state search: every operation sequence up to a depth on the real buffer types (then state-deduplicated BFS) vs a plain byte-string reference",
-  "All chunkings of n<=4 (thorough 6) distinct bytes into <=4 chunks incl. empty chunks; all sequences of depth <=3 (thorough 4), then deduplicated BFS to 5 (7), over TrimFront(0..n+1), CapLength(-1..n+1), RemoveFirst, Clone(nil|small|large) on the original and its clone with Size/ToView/Views/First read back after every step; View (TrimFront, CapLength with re-extension test, NextBytes, ToVectorisedView) and Prependable (Prepend(0..size+1), View, UsedLength, NewPrependableFromView) likewise.",
+  "All chunkings of n<=4 (thorough 6) distinct bytes into <=4 chunks incl. empty chunks; all sequences of depth <=3 (thorough 4), then deduplicated BFS to 5 (7), over TrimFront(0..n+1), CapLength(-1..n+1), RemoveFirst, Clone(nil | small | large | empty scratch with capacity | used scratch with stale views) on the original and its clone with Size/ToView/Views/First read back after every step; View (TrimFront, CapLength with re-extension test, NextBytes, ToVectorisedView) and Prependable (Prepend(0..size+1), View, UsedLength, NewPrependableFromView) likewise.",
   "View.TrimFront/CapLength only with counts within the current length. State key = complete structure (chunk contents, spare capacities, sizes), so deduplication merges only identical states.",
   "DESIGN.md §5 C16"),
  "C17": ("seqx+coop",
@@ -146,7 +146,7 @@ def main():
             {"name": "coop", "path": "engine/coop.go + shim/vsched", "serves_properties": ["C08", "C09", "C10", "C11", "C17", "C18", "C19"], "kind_free_text": "controlled cooperative scheduler + DFS over schedules with preemption bounding, on the real code"},
             {"name": "envx", "path": "harness/net", "serves_properties": ["C01", "C02", "C03", "C04", "C05", "C06", "C07", "C11", "C12", "C13", "C20"], "kind_free_text": "deterministic world (virtual clock, scripted wire, quiescence barrier) + DFS over deviations from the default environment answer"},
             {"name": "seqx", "path": "engine/seqx.go", "serves_properties": ["C08", "C09", "C10", "C12", "C16", "C17"], "kind_free_text": "explicit-state BFS over operation sequences on the real object against a reference model"},
-            {"name": "enum", "path": "harness/core", "serves_properties": ["C10", "C14", "C15"], "kind_free_text": "exhaustive enumeration of finite input domains against an independent reference"},
+            {"name": "enum", "path": "harness/core, harness/net", "serves_properties": ["C10", "C14", "C15"], "kind_free_text": "exhaustive enumeration of finite input domains against an independent reference"},
         ],
         "checks": checks,
         "not_applicable": na,
